@@ -524,6 +524,12 @@ func c07Dispatch(co *caseOut, kind string, raw json.RawMessage) error {
 			return err
 		}
 		run(func() { c07RunDrain(co, in) })
+	case "attrs":
+		var in c07AttrIn
+		if err := json.Unmarshal(raw, &in); err != nil {
+			return err
+		}
+		run(func() { c07RunAttrs(co, in) })
 	case "feevalue":
 		var in c07FeeValIn
 		if err := json.Unmarshal(raw, &in); err != nil {
@@ -544,6 +550,7 @@ func runC07(args []string) error {
 			"admit: a funded sender's transaction valid or made invalid in 1-2 chosen respects (system fee cap, script, expiry, not yet valid, blocked signer, size, fee below size*feePerByte+attribute fees, already on chain, named as conflict on chain, wrong signature, wrong witness script, attribute rules, balance, duplicate, pool conflict); "+
 			"wstate: a transaction co-signed by a non-standard verification script (Ledger.currentIndex < or >= N, GAS.balanceOf(X) < v, constant true) or a deployed contract's verify method, submitted, then 1-4 blocks that flip the witness or not; "+
 			"chist: 1-3 on-chain transactions naming the same hash in Conflicts, co-signed by the later submitter and/or a stranger, in blocks up to MaxTraceableBlocks+2 apart on a chain with MaxTraceableBlocks 6..12, then the named transaction submitted 0..MaxTraceableBlocks+1 blocks later; "+
+			"attrs: a transaction in order otherwise with a MIXED attribute list (valid NotValidBefore / HighPriority with the committee co-signing / Conflicts on foreign hashes, and defective ones: a second Conflicts with the same hash at every pair of positions, a Conflicts naming an on-chain transaction, a second single-use attribute, HighPriority without the committee, NotValidBefore in the future, OracleResponse / NotaryAssisted / a reserved type on an ordinary transaction, the 16-attributes-and-signers limit) at every position, sent as bytes; "+
 			"drain: three payers (one possibly 2-of-3) with 2-4 pooled transactions each and drains (the most prioritised transactions: GAS.transfer of most of a payer's GAS to a sink or to another payer, paid by the payer itself or by another payer and co-signed), MaxTransactionsPerBlock 1-3, 3-5 rounds of pack/block/refresh with the balance left covering exactly the first J remaining transactions -1/0/+1, and a probe submission at the edge of what is left; feevalue/governed boundary: fee.Calculate as a value and the threshold -1/0 at fractional execution fee factors (300001 in every run) for signature, 1-of-1, 2-of-3, 3-of-4; "+
 			"pack: 256-265 equal tiny transactions with MaxBlockSize within 2 bytes of the block of the first 252/253/254 (var-uint boundary of the count); pools of 6-30 transactions under small MaxTransactionsPerBlock/MaxBlockSize/MaxBlockSystemFee, with and without StateRootInHeader; "+
 			"non-trivial: multi-signature shape / any boundary / any admit case with a defect / a pack where a limit cut the set; distinct by Coq term")
@@ -573,7 +580,10 @@ func runC07(args []string) error {
 	maxN := 16
 	for n := 1; n <= maxN; n++ {
 		for m := 1; m <= n; m++ {
-			shapes = append(shapes, [2]int{m, n})
+			// quick: every shape up to 10 keys, then 1, n/2 and n of n (the volume, not the kinds, is what is cut)
+			if thorough || n <= 10 || m == 1 || m == n/2 || m == n {
+				shapes = append(shapes, [2]int{m, n})
+			}
 		}
 	}
 	if thorough {
@@ -636,15 +646,15 @@ func runC07(args []string) error {
 		c07Dispatch(co, "boundary", enc(c07ShapeIn{Seed: r.next(), Shapes: ss, Delta: pick(r, []int64{-1, 0, 0, 1})}))
 	}
 	// admit
-	for i := 0; i < cf.n/3; i++ {
+	for i := 0; i < cf.n/4; i++ {
 		c07Dispatch(co, "admit", enc(c07GenAdmit(r)))
 	}
 	// witnesses that depend on the chain state
-	for i := 0; i < cf.n/5; i++ {
+	for i := 0; i < cf.n/7; i++ {
 		c07Dispatch(co, "wstate", enc(c07GenWs(r)))
 	}
 	// on-chain conflict records over time
-	for i := 0; i < cf.n/5; i++ {
+	for i := 0; i < cf.n/7; i++ {
 		c07Dispatch(co, "chist", enc(c07GenHist(r)))
 	}
 	// pack: the var-uint boundary of the transaction count
@@ -659,8 +669,12 @@ func runC07(args []string) error {
 	for i := 0; i < cf.n/10; i++ {
 		c07Dispatch(co, "pack", enc(c07GenPack(r, thorough)))
 	}
+	// attribute rules on mixed attribute lists
+	for _, in := range c07GenAttrs(r, cf.n/10) {
+		c07Dispatch(co, "attrs", enc(in))
+	}
 	// pack histories with blocks that move GAS
-	for i := 0; i < cf.n/8; i++ {
+	for i := 0; i < cf.n/12; i++ {
 		c07Dispatch(co, "drain", enc(c07GenDrain(r)))
 	}
 	keys := make([]string, 0)
